@@ -18,7 +18,7 @@ use crate::operator::{
     IntoOpResult, OpError, OpRunContext, Operator, OutputList, OutputType, OutputTypeList,
     OutputTypesContext, PrepackedInput, static_dims,
 };
-use crate::ops::binary_elementwise::{add, broadcast_shapes};
+use crate::ops::binary_elementwise::{add, broadcast_shapes, mul};
 use crate::ops::layout::expand_to;
 use crate::shift_cast::ShiftCast;
 use crate::value::{DataType, ValueType, ValueView};
@@ -802,9 +802,22 @@ impl Operator for MatMulIntegerToFloat {
     }
 
     fn run(&self, ctx: &OpRunContext) -> Result<OutputList, OpError> {
-        let scale: TensorView<f32> = ctx.inputs().require_as(4)?;
-        let scale = OutputScale::from_view(scale)?;
+        let scale_view: TensorView<f32> = ctx.inputs().require_as(4)?;
+        let scale = OutputScale::from_view(scale_view.clone())?;
         let output: Tensor<i32> = self.matmul.run(ctx)?.remove(0).try_into().unwrap();
+
+        // A vector scale is normally applied per output column. The
+        // `Cast(MatMulInteger(..)) * scale` subgraph that this operator
+        // replaces also allows the scale to be broadcast against an output
+        // with a single column, or one that has no column axis.
+        if let OutputScale::Vector(scale_vec) = &scale
+            && output.shape().last() != Some(&scale_vec.size(0))
+        {
+            let output = output.auto_return(ctx.pool());
+            let output = output.map_in(ctx.pool(), |x| *x as f32).auto_return(ctx.pool());
+            return mul(ctx.pool(), output.view(), scale_view).into_op_result();
+        }
+
         cast_scale(ctx.pool(), output, scale).into_op_result()
     }
 
